@@ -39,7 +39,7 @@ def miri(chk):
         os.remove(part)
     env = dict(chk.ENV, MIRIFLAGS="-Zmiri-disable-isolation", CARGO_TARGET_DIR=tdir)
     cmd = ["cargo", "+nightly", "miri", "run", "--offline", "--no-default-features", "--features", "ml-dsa-44", "--",
-           "c16", "--tier", "quick", "--seed", chk.SEED, "--flavour", "miri", "--scale", "34", "--workers", "1",
+           "c16", "--tier", "quick", "--seed", chk.SEED, "--flavour", "miri", "--scale", "1", "--workers", "4", "--reduced", "1",
            "--only-set", "ml-dsa-44", "--evidence", part, "--replay-dir", os.path.join(chk.VERIF, "replays"), "--known", chk.KNOWN]
     t0 = time.time()
     p = subprocess.run(cmd, cwd=chk.crate_dir("sim"), env=env, stdout=subprocess.PIPE, stderr=subprocess.STDOUT, text=True)
